@@ -480,9 +480,16 @@ func (r *run) answerCmd(p *simmongo.Pending, faults []MongoFault) {
 				r.evSlow++
 				total := time.Duration(5500+w.lat.Intn(3000)) * time.Millisecond
 				if r.cur != nil && len(r.cur.late) > 0 {
-					w.tick(5050 * time.Millisecond)
+					at := 5050 * time.Millisecond
+					if r.cur.lateAt > 0 {
+						// a holder that is slower than any lease or expiry anybody might have in mind (10 s is
+						// what the Redis lock of a multi-server deployment uses)
+						at = time.Duration(r.cur.lateAt)*time.Second + 50*time.Millisecond
+						total = at + time.Duration(500+w.lat.Intn(1500))*time.Millisecond
+					}
+					w.tick(at)
 					r.joinLate()
-					total -= 5050 * time.Millisecond
+					total -= at
 				}
 				w.tick(total)
 			case "stall":
